@@ -17,11 +17,41 @@ pub static mut CLONES: usize = 0;
 /// Ids handed out by `D::clone` are `id + CLONE_OFF`.
 pub const CLONE_OFF: usize = 16;
 
-/// Destructor monitor (C05): while `WATCH_INDEX` is non-null, it points at a by-value iterator's `index` /
-/// `index_back`; ids `WATCH_BASE + k` are the elements in slot `k` of that iterator's array.
-pub static mut WATCH_INDEX: *const usize = core::ptr::null();
-pub static mut WATCH_BACK: *const usize = core::ptr::null();
+/// Destructor monitor (C05).  While armed, every `D` destructor run is taken to happen on a slot of a by-value
+/// iterator's array (the harness arms it only around iterator methods): slot k holds id `WATCH_BASE + k`, so from
+/// the address of the value being dropped the monitor finds the enclosing `GenericArrayIter` - wherever it has been
+/// moved to - through the field offsets the harness measured with `offset_of!`, and reads its *current* indices.
+pub static mut WATCH_ARMED: bool = false;
 pub static mut WATCH_BASE: usize = 0;
+/// offsets of (array, index, index_back) inside GenericArrayIter<D, N>
+pub static mut WATCH_OFF: (usize, usize, usize) = (0, 0, 0);
+/// > 0 while the iterator's own `Drop::drop` runs (injected scope marker): the guard is already being destroyed and
+/// is never dropped again, so its indices no longer matter.
+pub static mut IN_ITER_DROP: usize = 0;
+
+pub struct IterDropScope;
+impl IterDropScope {
+    pub fn enter() -> Self {
+        unsafe { IN_ITER_DROP += 1 };
+        IterDropScope
+    }
+}
+impl Drop for IterDropScope {
+    fn drop(&mut self) {
+        unsafe { IN_ITER_DROP -= 1 };
+    }
+}
+
+pub fn arm_dtor_monitor(base_id: usize, off_array: usize, off_index: usize, off_back: usize) {
+    unsafe {
+        WATCH_BASE = base_id;
+        WATCH_OFF = (off_array, off_index, off_back);
+        WATCH_ARMED = true;
+    }
+}
+pub fn disarm_dtor_monitor() {
+    unsafe { WATCH_ARMED = false };
+}
 
 /// 8-byte drop-tracked element.
 pub struct D(pub usize);
@@ -33,10 +63,13 @@ impl Drop for D {
             kani::assert(LIVE[self.0] == 1, "ledger: every element is dropped at most once (else: double drop / drop of a moved-out slot)");
             LIVE[self.0] = 0;
             DROPS += 1;
-            if !WATCH_INDEX.is_null() && self.0 >= WATCH_BASE {
+            if WATCH_ARMED && IN_ITER_DROP == 0 && self.0 >= WATCH_BASE {
                 // A destructor may unwind.  The landing pad runs the iterator's own Drop with the *current* indices,
                 // so the slot being dropped right now must already be outside [index, index_back).
-                let (i, b, k) = (*WATCH_INDEX, *WATCH_BACK, self.0 - WATCH_BASE);
+                let k = self.0 - WATCH_BASE;
+                let it = (self as *const D as *const u8).sub(k * core::mem::size_of::<D>() + WATCH_OFF.0);
+                let i = *(it.add(WATCH_OFF.1) as *const usize);
+                let b = *(it.add(WATCH_OFF.2) as *const usize);
                 kani::assert(!(i <= k && k < b), "unwind@drop_in_place: slot being dropped is already outside the iterator's live range");
             }
         }
